@@ -428,6 +428,7 @@ def run(tier: str) -> int:
             if "case" in v["scenario"] and v["violation"]["kind"] not in SOFT:
                 key += ":" + v["scenario"]["case"]
             by_class.setdefault(key, []).append(v)
+    kit.dump_raw(PROP, tier, by_class)
     unknown: dict[str, list[dict[str, Any]]] = {}
     for cls, vs in sorted(by_class.items()):
         for v in vs:
